@@ -109,7 +109,7 @@ def gen_program(rng, size: int = 10, with_args: bool = True, control_flow: bool 
             "arg_default", "arg_default", "seq_pair", "opt_pair",
             "inline0", "inline0", "intdiv", "intdiv", "intdiv_shape", "intdiv_shape",
             "intros", "intros", "unsafe", "inline_const", "inline_const",
-            "loop_perm", "loop_perm", "bigconst", "bigconst",
+            "loop_perm", "loop_perm", "bigconst", "bigconst", "inline_mix", "inline_mix", "inline_mix",
         ])
         if random_ops and rng.random() < 0.15:
             # a NON-DETERMINISTIC operator on a constant (history correspondence: the model's "skips propagation"
@@ -351,6 +351,24 @@ def gen_program(rng, size: int = 10, with_args: bool = True, control_flow: bool 
                              *[_V("tensor", "i64", [2], False) for _ in range(k)])
                 data = new_const(rng.choice(["f32", "i64"]), [12], "value")
                 emit({"op": "reshape", "args": [data, first + rng.randrange(k)]}, _V("opaque", None, None, False))
+        elif choice == "inline_mix":
+            # an inlined model called with a MIX of constant and non-constant arguments (every combination), with /
+            # without control flow whose bodies capture values derived from the non-constant argument
+            kind = rng.choice(MIX_KINDS)
+            if kind != "plain" and not control_flow and False:
+                kind = "plain"
+            def operand(want_const):
+                if want_const or not with_args:
+                    return new_const("i64", [2], rng.choice(["value", "init"]))
+                return new_arg("i64", [2])
+            combo = rng.choice([(True, False), (True, False), (False, True), (True, True), (False, False)])
+            c, x = operand(combo[0]), operand(combo[1])
+            allc = vs[c].const and vs[x].const
+            nout = 3 if kind == "plain" else 2
+            outs = [_V("tensor", "i64", [2], allc) for _ in range(2)] + ([_V("tensor", "i64", [1], True)] if kind == "plain" else [])
+            first = emit({"op": "inline_mix", "kind": kind, "args": [c, x], "how": rng.choice(["kw", "mixed"])}, *outs[:nout])
+            # what comes out is used: as a Reshape target and once more
+            emit({"op": "identity", "args": [first + 1]}, _V("tensor", "i64", [2], allc))
         elif choice == "bigconst":
             # size classes around the 1024-element boundary x byte orders x Constant / initializer
             n = rng.choice([1023, 1024, 1025, 5000])
@@ -473,6 +491,54 @@ def _inline_model():
 
 _PASSTHROUGH: dict = {}
 _CONSTMODEL: dict = {}
+_MIXMODEL: dict = {}
+
+MIX_KINDS = ["plain", "if_capture", "loop_capture", "if_const_only"]
+
+
+def mix_model(kind: str):
+    """g(c, x) over int64[2] with several outputs of different dependence (hand-written ModelProto, opset 17):
+      plain        : y1 = c + c            y2 = c * x              y3 = Shape(x)
+      if_capture   : y1 = c + c            y2 = If(sum(c) > 0) then (x + c, computed OUTSIDE the body and captured) else c
+      loop_capture : y1 = c + c            y2 = Loop(trip = 2, v0 = c) { v = v + x  (x captured) }
+      if_const_only: y1 = c + c            y2 = If(sum(c) > 0) then c + c else c   (control flow over constants only)
+    A value for y2 (y3 excepted: the shape is static) can only be right if x is a constant too."""
+    import onnx
+    import onnx.helper as oh
+
+    if kind in _MIXMODEL:
+        return _MIXMODEL[kind]
+    I64 = onnx.TensorProto.INT64
+    vi = lambda n, shape=(2,), t=I64: oh.make_tensor_value_info(n, t, list(shape))  # noqa: E731
+    nodes = [oh.make_node("Add", ["c", "c"], ["y1"])]
+    outs = [vi("y1")]
+    if kind == "plain":
+        nodes += [oh.make_node("Mul", ["c", "x"], ["y2"]), oh.make_node("Shape", ["x"], ["y3"])]
+        outs += [vi("y2"), vi("y3", (1,))]
+    elif kind in ("if_capture", "if_const_only"):
+        nodes += [oh.make_node("ReduceSum", ["c"], ["s"], keepdims=0),
+                  oh.make_node("Constant", [], ["zero"], value=oh.make_tensor("zero", I64, [], [0])),
+                  oh.make_node("Greater", ["s", "zero"], ["cond"]),
+                  oh.make_node("Add", ["x", "c"] if kind == "if_capture" else ["c", "c"], ["t"])]
+        then_g = oh.make_graph([oh.make_node("Identity", ["t"], ["then_out"])], "then", [], [vi("then_out")])
+        else_g = oh.make_graph([oh.make_node("Identity", ["c"], ["else_out"])], "else", [], [vi("else_out")])
+        nodes.append(oh.make_node("If", ["cond"], ["y2"], then_branch=then_g, else_branch=else_g))
+        outs.append(vi("y2"))
+    elif kind == "loop_capture":
+        body = oh.make_graph([oh.make_node("Add", ["v", "x"], ["v_out"]), oh.make_node("Identity", ["cond_in"], ["cond_out"])], "body",
+                             [vi("i", ()), vi("cond_in", (), onnx.TensorProto.BOOL), vi("v")],
+                             [vi("cond_out", (), onnx.TensorProto.BOOL), vi("v_out")])
+        nodes += [oh.make_node("Constant", [], ["trip"], value=oh.make_tensor("trip", I64, [], [2])),
+                  oh.make_node("Constant", [], ["true"], value=oh.make_tensor("true", onnx.TensorProto.BOOL, [], [True])),
+                  oh.make_node("Loop", ["trip", "true", "c"], ["y2"], body=body)]
+        outs.append(vi("y2"))
+    else:
+        raise ValueError(kind)
+    g = oh.make_graph(nodes, "mix_" + kind, [vi("c"), vi("x")], outs)
+    m = oh.make_model(g, opset_imports=[oh.make_operatorsetid("", 17)], ir_version=8)
+    onnx.checker.check_model(m, full_check=True)
+    _MIXMODEL[kind] = m
+    return m
 
 
 def _constant_model(data: tuple):
@@ -612,6 +678,22 @@ def apply_step(step: dict, vars_: list) -> list:
         from harness import lib_vpdtype as DT
 
         return DT.apply_mlop(step, a)
+    if o == "inline_mix":
+        m = mix_model(step["kind"])
+        r = inline(m)(a[0], x=a[1]) if step.get("how") == "mixed" else inline(m)(c=a[0], x=a[1])
+        return list(r.values())
+    if o == "loop_break":
+        # Loop with a CONSTANT trip count M, cond omitted / constant true, whose body turns the condition off
+        # after `k` iterations: the scan output has k + 1 (< M) rows, whatever M promises
+        kconst = op.constant(value=np.array(step["k"], dtype=np.int64))
+        cond = None if step["cond"] == "omitted" else op.constant(value=np.array(True))
+        data = a[1] if len(a) > 1 else None
+
+        def body(i, _c, *vs):
+            elem = op.add(i, i) if data is None else op.mul(data, op.cast(i, to=np.float32))
+            return [op.less(i, kconst)] + list(vs) + [elem]
+
+        return list(op.loop(a[0], cond, v_initial=[], body=body))
     if o == "inline_const":
         return list(inline(_constant_model(tuple(step["data"])))().values())
     if o == "inline0":
@@ -888,6 +970,35 @@ def _like(x, y):
     return x
 
 
+def _semantic_only(steps: list, step_of_var: list, i: int) -> bool:
+    k = step_of_var[i]
+    if steps[k]["op"] == "inline_mix":
+        return True
+    return steps[k]["op"] == "identity" and steps[step_of_var[steps[k]["args"][0]]]["op"] == "inline_mix"
+
+
+def _where_truncated(steps: list, prop, runtime) -> bool:
+    """A difference explained by Where on string tensors of different widths upstream: every propagated string
+    (or split piece / length derived from one) stems from a runtime string cut short. Only claimed when the program
+    has a Where over string operands and the propagated strings are proper prefixes of the runtime ones."""
+    has_where = any(st["op"] == "where" and any(steps[a]["op"] == "const" and steps[a].get("dt") == "str" or steps[a]["op"] == "mlop" or steps[a]["op"] in ("gather", "concat", "identity", "where", "cast")
+                                                  for a in st["args"][1:]) for st in steps)
+    if not has_where:
+        return False
+    try:
+        a, b = np.asarray(prop), np.asarray(runtime)
+        if a.dtype.kind in "UO" and b.dtype.kind in "UO":
+            if a.shape == b.shape:
+                xs, ys = [str(x) for x in a.reshape(-1)], [str(y) for y in b.reshape(-1)]
+                return xs != ys and all(y.startswith(x) for x, y in zip(xs, ys))
+            return a.ndim == b.ndim == 2 and a.shape[0] == b.shape[0] and a.shape[1] < b.shape[1]  # StringSplit of a cut string: fewer pieces
+        if a.dtype.kind == "i" and b.dtype.kind == "i" and a.shape == b.shape:  # StringSplit's piece counts
+            return any(st["op"] == "mlop" and st.get("name") == "StringSplit" for st in steps) and bool(np.all(a <= b)) and bool(np.any(a < b))
+    except Exception:  # noqa: BLE001
+        return False
+    return False
+
+
 def c07_check_program(steps: list, sel: str, seed: int) -> dict:
     """C07 on one program under one backend. Returns {"failures": [(key, what)], "stats": {...}}."""
     import spox
@@ -896,6 +1007,14 @@ def c07_check_program(steps: list, sel: str, seed: int) -> dict:
     stats = {"valued": 0, "compared": 0, "derived_types": 0, "multi": 0}
     r = run_program(steps, sel)
     infra = None
+    if r["raised"] and sel != "none":
+        # value propagation only adds information: a program that constructs with propagation off must construct
+        # under every backend (a propagated value of the wrong representation makes the NEXT constructor choke)
+        off = run_program(steps, "none")
+        if not off["raised"]:
+            k_r, cls, msg = r["raised"]
+            fails.append((f"construct-raises:{steps[k_r]['op'] if steps[k_r]['op'] != 'mlop' else steps[k_r]['name']}:{cls}",
+                          f"[{sel}] step {k_r} {json_short(steps[k_r])} raised {cls} ({msg[:90]}) but constructs with propagation off"))
     if r["raised"]:
         # judge the Vars constructed before the raising step all the same (a wrong propagated constant
         # typically shows up *before* the operator that chokes on it)
@@ -903,7 +1022,7 @@ def c07_check_program(steps: list, sel: str, seed: int) -> dict:
     vars_ = r["vars"]
     valued = [(i, v) for i, v in enumerate(vars_) if L.has_value(v)]
     stats["valued"] = len(valued)
-    stats["control_flow_valued"] = sum(1 for i, _ in valued if steps[r["step_of_var"][i]]["op"] in ("if", "loop_perm"))
+    stats["control_flow_valued"] = sum(1 for i, _ in valued if steps[r["step_of_var"][i]]["op"] in ("if", "loop_perm", "loop_break"))
     for i, v in valued:
         opn = opn_of(steps, r["step_of_var"][i], sel)
         why = L.conforms_var(v)
@@ -912,6 +1031,11 @@ def c07_check_program(steps: list, sel: str, seed: int) -> dict:
         try:
             dep = has_argument_in_cone(v)
         except Exception:  # noqa: BLE001 - graph walk not observable: the execution comparison still runs
+            dep = False
+        if dep and _semantic_only(steps, r["step_of_var"], i):
+            # an output of an inlined model called with a MIX of constant and non-constant arguments may be a
+            # function of the constants alone: structural dependence is no failure of the statement there -
+            # the comparison with the runtime under several bindings of the inputs below is what judges it
             dep = False
         if dep:
             fails.append((f"input-dependent:{opn}", f"var {i} of {opn} carries a value but depends on an argument"))
@@ -923,7 +1047,8 @@ def c07_check_program(steps: list, sel: str, seed: int) -> dict:
         model = spox.build(args, {f"v{i}": v for i, v in exposed})
     except Exception as e:  # noqa: BLE001
         return {"failures": fails, "stats": stats, "infra": f"build failed {type(e).__name__}: {str(e)[:200]}"}
-    for trial in range(2):  # two different bindings of the (unrelated) inputs
+    n_bind = 4 if any(st["op"] == "inline_mix" for st in steps) else 2
+    for trial in range(n_bind):  # different bindings of the (unrelated) inputs
         feed = random_feed(model, seed * 7 + trial)
         try:
             outs = ort_run(model, feed)
@@ -975,6 +1100,12 @@ def c07_check_program(steps: list, sel: str, seed: int) -> dict:
                         why = None
                 if why and down_of is not None and legacy_class.get(down_of):
                     why = None  # consequence of the (reported) difference at the inlined model's own output
+                if why and sel == "reference" and _where_truncated(steps, v._get_value(), o):
+                    # onnx.reference's Where returns `np.where(c, x, y).astype(x.dtype)`: with fixed-width numpy strings
+                    # the elements taken from y are cut to x's width (third-party; listed family, never a silent pass)
+                    fails.append(("string:reference-where-truncates",
+                                  f"[{sel}] var {i} ({opn}): propagated {_short(v._get_value(), 60)} but the built model computes {_short(o, 60)}"))
+                    why = None
                 if why == "strings-differ":
                     fam = nul_class(v._get_value(), o)
                     if fam:  # numpy fixed-width strings / the ORT feed drop NULs: its own (listed) family
@@ -1125,6 +1256,9 @@ def off_check_program(steps: list, sel: str, seed: int) -> dict:
         st, cls, msg = on["raised"]
         if steps[st]["op"] == "const":  # no backend involved: spox's own Constant / initializer propagation raised
             return {"failures": [(f"const-raises:{cls}", f"constructing {json_short(steps[st])} raised {cls}: {msg[:100]}")]}
+        if not off["raised"]:  # constructs with propagation off, fails with it on (no fault injected)
+            nm = steps[st]["name"] if steps[st]["op"] == "mlop" else steps[st]["op"]
+            return {"failures": [(f"on-raises:{nm}:{cls}", f"[{sel}] {json_short(steps[st])} raised {cls} ({msg[:90]}) with propagation on, constructs with it off")]}
         return {"failures": [], "infra": f"program raised {on['raised']}"}
     if off["raised"]:
         st, cls, msg = off["raised"]
@@ -1151,6 +1285,9 @@ def off_check_program(steps: list, sel: str, seed: int) -> dict:
         a, b = ort_run(m_on, feed), ort_run(m_off, feed)
     except Exception as e:  # noqa: BLE001
         return {"failures": fails, "infra": f"ort failed {type(e).__name__}: {str(e)[:150]}"}
+    if any(st["op"] == "mlop" and st.get("fn") in ("random_uniform", "random_normal", "random_uniform_like", "random_normal_like", "multinomial", "bernoulli")
+           or st["op"] == "mlop" and st.get("name") == "dropout_train" for st in steps):
+        return {"failures": fails}  # two runs of a sampling program differ by nature: only the emitted graphs are compared
     for i, x, y in zip(idx, a, b):
         why = values_equal(x, y)
         if why:
@@ -1190,10 +1327,17 @@ def schema_non_deterministic(node) -> bool:
         return False
 
 
+def model_has_control_flow(model) -> bool:
+    """Does any node of the (top-level) graph carry a GRAPH / GRAPHS attribute? (own scan of the ModelProto)"""
+    import onnx
+
+    return any(a.type in (onnx.AttributeProto.GRAPH, onnx.AttributeProto.GRAPHS) for n in model.graph.node for a in n.attribute)
+
+
 def record_history(steps: list, sel: str, script=None, at: str = "run") -> dict:
     """Run the program and describe it as a model history (`VP.Step` list) together with the values
     the real code attached. Programs with control flow are not described (returns {"skip": ...})."""
-    if any(st["op"] in ("if", "loop_perm", "unsafe_reshape", "unsafe_cast") for st in steps):
+    if any(st["op"] in ("if", "loop_perm", "loop_break", "unsafe_reshape", "unsafe_cast") for st in steps):
         return {"skip": "control flow / unsafe_* (outside the history model)"}
     reg = L.PidRegistry()
     nonconf: list = []
@@ -1245,12 +1389,15 @@ def record_history(steps: list, sel: str, script=None, at: str = "run") -> dict:
                     else:
                         backend = {"names": [], "vals": []}
                     h = {"sel": sel, "inputs": ins, "inNames": names, "outs": outs, "backend": backend}
+                    # the three facts behind "propagate_values returns early" are observed separately, with the
+                    # harness's own means (operator list from the ONNX documentation, node.subgraphs, a scan of the
+                    # inlined ModelProto); the MODEL combines them (`Traits.skips`, `propagates`)
                     if type(node).__name__ == "_Inline":
-                        h.update({"k": "inline", "gnames": [o.name for o in node.graph.output]})
+                        h.update({"k": "inline", "gnames": [o.name for o in node.graph.output], "sampling": False, "hasSubgraph": False,
+                                  "inlineControlFlow": model_has_control_flow(node.model)})
                     else:
-                        # "hasSubgraph" is the model's flag for "propagate_values_onnx returns early": subgraph-carrying
-                        # nodes and (since d7506da) operators whose ONNX schema is non-deterministic - read from onnx.defs here
-                        h.update({"k": "standard", "hasSubgraph": next(iter(node.subgraphs), None) is not None or schema_non_deterministic(node)})
+                        h.update({"k": "standard", "sampling": schema_non_deterministic(node), "inlineControlFlow": False,
+                                  "hasSubgraph": next(iter(node.subgraphs), None) is not None})
                     hist.append(h)
                 for j, (key, v) in enumerate(node.outputs.get_vars().items()):
                     ref_of[id(v)] = {"node": idx, "out": j}
@@ -1270,7 +1417,7 @@ def record_history(steps: list, sel: str, script=None, at: str = "run") -> dict:
 
 DERIVED_TEMPLATES = ["compress", "one_hot", "topk", "range", "constant_of_shape", "pad", "squeeze", "unsqueeze",
                      "split_sizes", "shape_gather", "non_zero_shape", "unique_size", "cumsum", "slice", "tile",
-                     "expand", "reshape", "reduce", "gather", "resize"]
+                     "expand", "reshape", "reduce", "gather", "resize", "loop_break"]
 
 
 def gen_derived_program(rng, template: Optional[str] = None) -> list:
@@ -1417,6 +1564,23 @@ def gen_derived_program(rng, template: Optional[str] = None) -> list:
         arr = np.array(idx)
         emit({"op": "gather_ax", "args": [x, C(rng.choice(["i64", "i32"]), [int(d) for d in arr.shape], [int(v) for v in arr.reshape(-1)])],
               "axis": rng.choice([0, -2])})
+    elif t == "loop_break":
+        # constant trip count M, cond omitted / constant true, the body breaks after k < M iterations; the scan
+        # output (k + 1 rows) and everything derived from its shape must be typed soundly
+        M = rng.choice([3, 4, 5, 7])
+        k = rng.randrange(0, M - 1)
+        if rng.random() < 0.2:
+            k = M + 1  # never breaks: M rows
+        trip = C("i64", [], [M], rng.choice(["value", "init"]))
+        args = [trip]
+        if rng.random() < 0.5:
+            args.append(C("f32", [2], [0.5, 1.5]))
+        sc = emit({"op": "loop_break", "args": args, "k": k, "cond": rng.choice(["omitted", "true"])})
+        sh = emit({"op": "shape", "args": [sc]})
+        if rng.random() < 0.5:
+            emit({"op": "constant_of_shape", "args": [sh], "fill": 2})
+        else:
+            emit({"op": "size", "args": [sc]})
     elif t == "resize":
         x = X("f32", [1, 1, 2, m])
         if rng.random() < 0.5:
